@@ -768,3 +768,133 @@ Proof.
 Qed.
 
 End Prepare.
+
+(* ------------------------------------------------------------------ *)
+(* the instance used on the wire satisfies the assumption made about lg
+   (so the assumption is satisfiable by a function that is injective on values) *)
+
+Lemma fnorm_parts n d : 0 < d ->
+  let g := Z.gcd n d in
+  0 < g /\ n = g * (n / g) /\ d = g * (d / g) /\ Z.gcd (n / g) (d / g) = 1 /\ 0 < d / g.
+Proof.
+  intros Hd g.
+  assert (Hg : 0 < g).
+  { pose proof (Z.gcd_nonneg n d). destruct (Z.eq_dec g 0) as [E|E]; [|unfold g in *; lia].
+    apply Z.gcd_eq_0 in E. lia. }
+  assert (Hn : n = g * (n / g)).
+  { apply Z_div_exact_full_2; [lia|]. apply Z.mod_divide; [lia|]. apply Z.gcd_divide_l. }
+  assert (Hdd : d = g * (d / g)).
+  { apply Z_div_exact_full_2; [lia|]. apply Z.mod_divide; [lia|]. apply Z.gcd_divide_r. }
+  repeat split; try assumption.
+  - apply Z.gcd_div_gcd; [lia | reflexivity].
+  - nia.
+Qed.
+
+Lemma fnorm_pos a : 0 < snd a -> fnorm a = (fst a / Z.gcd (fst a) (snd a), snd a / Z.gcd (fst a) (snd a)).
+Proof.
+  intros Hd. unfold fnorm. destruct (fnorm_parts (fst a) (snd a) Hd) as [Hg _].
+  destruct (Z.gcd (fst a) (snd a) =? 0) eqn:E; [apply Z.eqb_eq in E; lia | reflexivity].
+Qed.
+
+Lemma fnorm_ext a b : 0 < snd a -> 0 < snd b -> feq a b -> fnorm a = fnorm b.
+Proof.
+  intros Ha Hb Hab. rewrite !fnorm_pos by assumption. destruct a as [n1 d1]. destruct b as [n2 d2].
+  unfold feq in Hab. simpl in *.
+  destruct (fnorm_parts n1 d1 Ha) as [Hg1 [Hn1 [Hd1 [Hc1 Hp1]]]].
+  destruct (fnorm_parts n2 d2 Hb) as [Hg2 [Hn2 [Hd2 [Hc2 Hp2]]]].
+  set (g1 := Z.gcd n1 d1) in *. set (g2 := Z.gcd n2 d2) in *.
+  set (a1 := n1 / g1) in *. set (b1 := d1 / g1) in *. set (a2 := n2 / g2) in *. set (b2 := d2 / g2) in *.
+  assert (Hx : a1 * b2 = a2 * b1).
+  { assert (H : (g1 * g2) * (a1 * b2) = (g1 * g2) * (a2 * b1)).
+    { replace (g1 * g2 * (a1 * b2)) with ((g1 * a1) * (g2 * b2)) by ring.
+      replace (g1 * g2 * (a2 * b1)) with ((g2 * a2) * (g1 * b1)) by ring.
+      rewrite <- Hn1, <- Hd2, <- Hn2, <- Hd1. exact Hab. }
+    apply Z.mul_reg_l in H; [exact H | nia]. }
+  assert (Hb12 : b1 = b2).
+  { apply Z.divide_antisym_nonneg; try lia.
+    - apply (Z.gauss b1 a1 b2); [exists a2; lia | rewrite Z.gcd_comm; exact Hc1].
+    - apply (Z.gauss b2 a2 b1); [exists a1; lia | rewrite Z.gcd_comm; exact Hc2]. }
+  f_equal; [|exact Hb12]. rewrite <- Hb12 in Hx. apply Z.mul_reg_r in Hx; [exact Hx | lia].
+Qed.
+
+(* and it does separate different values *)
+Lemma fnorm_sound a : 0 < snd a -> feq (fnorm a) a /\ 0 < snd (fnorm a).
+Proof.
+  intros Ha. rewrite fnorm_pos by assumption. destruct a as [n d]. simpl in *.
+  destruct (fnorm_parts n d Ha) as [Hg [Hn [Hd [_ Hp]]]]. unfold feq. simpl. split; [|exact Hp].
+  set (g := Z.gcd n d) in *. rewrite Hd at 1. rewrite Hn at 2. ring.
+Qed.
+
+Lemma fnorm_injective a b : 0 < snd a -> 0 < snd b -> fnorm a = fnorm b -> feq a b.
+Proof.
+  intros Ha Hb H. destruct (fnorm_sound a Ha) as [Fa Pa]. destruct (fnorm_sound b Hb) as [Fb Pb].
+  rewrite H in Fa, Pa. unfold feq in *.
+  destruct a as [n1 d1]; destruct b as [n2 d2]; destruct (fnorm (n2, d2)) as [u v]; simpl in *.
+  assert (E : v * (n1 * d2) = v * (n2 * d1)).
+  { replace (v * (n1 * d2)) with ((n1 * v) * d2) by ring. rewrite <- Fa.
+    replace (u * d1 * d2) with ((u * d2) * d1) by ring. rewrite Fb. ring. }
+  apply Z.mul_reg_l in E; [exact E | lia].
+Qed.
+
+(* ------------------------------------------------------------------ *)
+(* statements in the form used by Props/C07.v                          *)
+
+Lemma scale_invariant_full (R : Type) (lg : frac -> R) :
+  (forall a b, 0 < snd a -> 0 < snd b -> feq a b -> lg a = lg b) ->
+  (forall k row, 0 < k -> Forall (fun x => 0 <= x) row ->
+     Forall2 feq (cpm_row (map (Z.mul k) row)) (cpm_row row) /\
+     log2cpm_row R lg (map (Z.mul k) row) = log2cpm_row R lg row) /\
+  (forall ks genes d lists, Forall (fun k => 0 < k) ks -> length ks = length d ->
+     prepare_query R lg genes (DeclRaw (scale_rows ks d)) lists = prepare_query R lg genes (DeclRaw d) lists).
+Proof.
+  intros lg_ext. split.
+  - intros k row Hk Hn. split; [apply cpm_scale; assumption | apply log2cpm_scale; assumption].
+  - intros ks genes d lists Hks Hl. apply scale_invariant; assumption.
+Qed.
+
+Lemma scale_invariant_rational (R : Type) (lg : frac -> R) :
+  (forall a b, 0 < snd a -> 0 < snd b -> feq a b -> lg a = lg b) ->
+  forall a b r1 r2, 0 < a -> 0 < b -> Forall (fun x => 0 <= x) r1 ->
+    Forall2 (fun x y => a * x = b * y) r1 r2 ->
+    Forall2 feq (cpm_row r1) (cpm_row r2) /\ log2cpm_row R lg r1 = log2cpm_row R lg r2.
+Proof.
+  intros lg_ext a b r1 r2 Ha Hb Hn Hp. split.
+  - apply (cpm_proportional a b); assumption.
+  - apply (log2cpm_proportional R lg lg_ext a b); assumption.
+Qed.
+
+Lemma gene_permutation_both (R : Type) (lg : frac -> R) p genes lists :
+  NoDup genes -> Permutation p (seq 0 (length genes)) ->
+  (forall d : list (list Z), Forall (fun r => length r = length genes) d ->
+     prepare_query R lg (permute p genes) (DeclRaw (map (permute p) d)) lists =
+     prepare_query R lg genes (DeclRaw d) lists) /\
+  (forall d : list (list R), Forall (fun r => length r = length genes) d ->
+     prepare_query R lg (permute p genes) (DeclNorm (map (permute p) d)) lists =
+     prepare_query R lg genes (DeclNorm d) lists).
+Proof.
+  intros Hn Hp. split; intros d Hw.
+  - exact (gene_permutation R lg p genes (DeclRaw d) lists Hn Hw Hp).
+  - exact (gene_permutation R lg p genes (DeclNorm d) lists Hn Hw Hp).
+Qed.
+
+Lemma negative_raw_both (R : Type) (lg : frac -> R) genes d lists :
+  has_negative d = true ->
+  (forall r, prepare_query R lg genes (DeclRaw d) lists <> Ok r) /\
+  (forall am, marker_cache genes lists = Ok am -> prepare_query R lg genes (DeclRaw d) lists = Err ENegative).
+Proof.
+  intros Hneg. split.
+  - intros r. apply negative_raw_rejected. assumption.
+  - intros am. apply negative_raw_error. assumption.
+Qed.
+
+Lemma prepare_agree_assoc (R : Type) (lg : frac -> R) genes genes' (d d' : list (list R)) lists :
+  NoDup genes -> NoDup genes' ->
+  Forall (fun r => length r = length genes) d -> Forall (fun r => length r = length genes') d' ->
+  (forall g, In g (concat lists) -> (In g genes <-> In g genes')) ->
+  Forall2 (fun row row' => forall g, In g (concat lists) ->
+             zassoc g (combine genes row) = zassoc g (combine genes' row')) d d' ->
+  prepare_query R lg genes (DeclNorm d) lists = prepare_query R lg genes' (DeclNorm d') lists.
+Proof.
+  intros Hn Hn' Hw Hw' Hin Hag. apply prepare_agree; try assumption.
+  eapply Forall2_weaken; [|exact Hag]. intros row row' H g Hg. rewrite !lookup_zassoc. apply H. assumption.
+Qed.
